@@ -32,7 +32,12 @@ type sweepT struct {
 // sweep enumerates all accounts. StateDB.RawDump cannot be used (it panics on
 // this tree), so: Copy() -> Commit(true) -> own iteration of the account trie.
 // The observed state itself is left untouched.
-func sweep(s *state.StateDB) (*sweepT, error) {
+func sweep(s *state.StateDB) (out *sweepT, err error) {
+	defer func() {
+		if e := recover(); e != nil { // e.g. an account that cannot be encoded (negative balance)
+			out, err = nil, fmt.Errorf("panic while committing a copy of the state: %v", e)
+		}
+	}()
 	cp := s.Copy()
 	root, err := cp.Commit(true)
 	if err != nil {
@@ -42,7 +47,7 @@ func sweep(s *state.StateDB) (*sweepT, error) {
 	if err != nil {
 		return nil, fmt.Errorf("open trie: %v", err)
 	}
-	out := &sweepT{Accts: map[common.Hash]*acct{}, Total: new(big.Int), Root: root}
+	out = &sweepT{Accts: map[common.Hash]*acct{}, Total: new(big.Int), Root: root}
 	it := trie.NewIterator(tr.NodeIterator(nil))
 	for it.Next() {
 		var a types.StateAccount
